@@ -3,7 +3,9 @@
 import json, glob, os
 V = os.path.dirname(os.path.dirname(os.path.abspath(__file__)))
 out = []
+ready = set(open(os.path.join(V, 'manifest.d', '_ready.txt')).read().split())
 for f in sorted(glob.glob(os.path.join(V, 'findings.d', '*.json'))):
-    out += json.load(open(f))['findings']
+    if os.path.basename(f)[:-5] in ready:
+        out += json.load(open(f))['findings']
 json.dump({'findings': out}, open(os.path.join(V, 'known_findings.json'), 'w'), indent=1)
 print(len(out), 'findings')
